@@ -201,8 +201,19 @@ def check(t0, t1, ordered, reduce, res):
         for path, n in inR.items():
             if path not in inF:
                 errs.append(f"reduced result has {path} which the full result lacks")
+            else:
+                fdc = inF[path].get_meta("dc")
+                # whether a T0-only node counts as removed or as moved away is determined by the inputs
+                if fdc in (DC.REMOVED, DC.MOVED_TO) and n.get_meta("dc") != fdc:
+                    errs.append(f"{path} is marked {n.get_meta('dc')} with reduce=True but {fdc} with reduce=False")
             if not n.children and not n.get_meta("dc"):
                 errs.append(f"reduced result keeps unmarked leaf {path}")
+        n_here_full = sum(1 for n in full if n.get_meta("dc") == DC.MOVED_HERE)
+        n_here_red = sum(1 for n in t2 if n.get_meta("dc") == DC.MOVED_HERE)
+        n_to_full = sum(1 for n in full if n.get_meta("dc") == DC.MOVED_TO)
+        n_to_red = sum(1 for n in t2 if n.get_meta("dc") == DC.MOVED_TO)
+        if (n_here_full > 0) != (n_here_red > 0) or n_to_full != n_to_red:
+            errs.append(f"reduce=True has {n_here_red} moved-here / {n_to_red} moved-away marks, reduce=False has {n_here_full} / {n_to_full}")
         kids_r = paths(t2)
         kids_f = paths(full)
         for path, kids in kids_r.items():
